@@ -324,10 +324,22 @@ static Verdict runOn(const Case& c, Info& info)
 {
     P obj;
     bool hadOtherLength = false, oddList = false;
-    for (const auto& s : c.history)
+    for (size_t si = 0; si < c.history.size(); ++si)
     {
+        const Step& s = c.history[si];
         RecipeFields f = fieldsFor(c.cls, s);
         applyStep(obj, f, s.headerFirst);
+        // every intermediate state is read back through all getters too (getters must not leave state behind that a
+        // later setData does not refresh); odd seeds skip the read so that both orders set-set-get and set-get-set occur
+        if (s.seed % 2 == 0)
+        {
+            Bytes rawStep(obj.getRawPayload(), obj.getRawPayload() + obj.getLength());
+            Verdict v = checkContent(obj, f, rawStep);
+            if (!v.ok)
+                return Verdict::fail("after history step " + std::to_string(si) + ": " + v.why);
+            ViewStats vs;
+            VF_TRY(sweepAccessors(c.cls, obj, vs));
+        }
         if (s.len != c.last.len || s.len2 != c.last.len2 || memcmp(s.strLen, c.last.strLen, sizeof(s.strLen)) != 0)
             hadOtherLength = true;
     }
